@@ -5,7 +5,8 @@
 # real QPDFJob::initializeFromJson on that JSON, and the denotation's calls applied through the real QPDFJob::Config API must build the
 # same configuration (QPDFJob::Members dump) or raise the same usage error; a job the denotation does not accept must be a usage error
 # in both front ends; a job with an encryption request is also run with --encrypt in its dashed spelling (Sys/JobSpecXD.v:
-# --user-password= --owner-password= --bits=), which must behave as the positional one.  These are the jobs the theorems argv_refines_spec / json_refines_spec / nested_equivalent (Sys/C19ProofsE.v)
+# --user-password= --owner-password= --bits=, and the same with the option of an empty password left out), which must behave as the
+# positional one.  These are the jobs the theorems argv_refines_spec / json_refines_spec / nested_equivalent (Sys/C19ProofsE.v)
 # quantify over; the generator aims at their case splits: every nested table (pages, encrypt x 3 key lengths, overlay, underlay,
 # add-attachment, copy-attachments-from, global, set-page-labels) with 0..3 blocks, every option of each table with acceptable and
 # unacceptable values, the file word at every position of an attachment block, page selections at any place of the job, both
@@ -230,7 +231,7 @@ def aimed_jobs(C, T, rng):
     jobs.append({"global": {}})
     for b in ("40bit", "128bit", "256bit"):
         jobs.append({"encrypt": {"userPassword": "u", "ownerPassword": "o", b: {}}})
-        for u, o in (("", ""), ("256", "40"), ("2", "1-3"), ("A.pdf", "."), ("-", "-")):
+        for u, o in (("", ""), ("", "o"), ("u", ""), ("256", "40"), ("2", "1-3"), ("A.pdf", "."), ("-", "-")):
             jobs.append({"encrypt": {"userPassword": u, "ownerPassword": o, b: {}}})
         for k, e in sorted(T.sub[b].items()):
             if b == "40bit" and k in ("print", "modify"):
@@ -319,31 +320,36 @@ def part_spec(chk, C, T, runner, jobs):
     rlines, meta = [], []
     for (j, named, toks), mo in zip(cases, mout):
         parts = mo.split(" | ")
-        if mo.startswith("?") or len(parts) != 4:
+        if mo.startswith("?") or len(parts) != 5:
             raise common.InfraError("C19 spec: the extracted specification did not answer", mo[:500] + " for " + " ".join(toks)[:500])
         ok, calls = parts[0].split(" ", 1)
         argv = parts[1].split(" ") if parts[1] != "" else []
         jtext = json_from_tokens(parts[2].split(" "))
         dashed = parts[3].split(" ") if parts[3] != "" else []      # the same job with --encrypt in its dashed spelling
+        dashopt = parts[4].split(" ") if parts[4] != "" else []     # ... with the option of an empty password left out
         forked = "global" in j
         f = "cfgf_" if forked else "cfg_"
         rlines.append(f + "argv " + " ".join(argv))
         rlines.append(f + "json " + hexs(jtext))
         rlines.append(f + "replay " + ("fin " if ok == "1" else "front:0 ") + calls)
         rlines.append(f + "argv " + " ".join(dashed))
-        meta.append((ok == "1", calls, argv, jtext, dashed))
+        rlines.append(f + "argv " + " ".join(dashopt))
+        meta.append((ok == "1", calls, argv, jtext, dashed, dashopt))
     d = C.new_rundir(runner.wd, runner.pool, "spec")
     rout = common.run_lines("env --chdir=%s %s" % (d, runner.drv), rlines, shards=4)
     nontriv, dist, reached, nviol, ndashed_diff = set(), {}, {}, 0, 0
-    for i, ((j, named, toks), (ok, calls, argv, jtext, dashed)) in enumerate(zip(cases, meta)):
-        ra, rj, rp, rd = rout[4 * i], rout[4 * i + 1], rout[4 * i + 2], rout[4 * i + 3]
+    for i, ((j, named, toks), (ok, calls, argv, jtext, dashed, dashopt)) in enumerate(zip(cases, meta)):
+        ra, rj, rp, rd, ro = rout[5 * i], rout[5 * i + 1], rout[5 * i + 2], rout[5 * i + 3], rout[5 * i + 4]
         a, b = C.parse_dump(ra), C.parse_dump(rj)
-        if "encrypt" in j and rd != ra:
-            # the dashed spelling must behave as the positional one (same dump / same usage error); reported through the same verdict
-            dd = C.parse_dump(rd)
+        for rx, words in (((rd, dashed), (ro, dashopt)) if "encrypt" in j else ()):
+            # the dashed spellings must behave as the positional one (same dump / same usage error); reported through the same verdict
+            if rx == ra:
+                continue
+            dd = C.parse_dump(rx)
             if dd[0] != a[0] or (a[0] == "ok" and C.dump_diff(a, dd)) or (a[0] == "usage" and ok and dd[1] != a[1]):
-                a, ra, argv = dd, rd, dashed
+                a, ra, argv = dd, rx, words
                 ndashed_diff += 1
+                break
         why, cls = None, "?"
         if not ok:
             cls = "spec-rejects"
@@ -388,7 +394,7 @@ def part_spec(chk, C, T, runner, jobs):
                                "denotation_replayed_through_real_Config": C.short_out(rp)}, signature=C.enc40_signature(j, None))
         elif cls in ("ok", "config-usage"):
             nontriv.add((named, " ".join(toks)))
-    chk.count("spec", 3 * len(cases) + sum(1 for c in cases if "encrypt" in c[0]), nontriv, samples=[{"job": cases[i][0], "file_names_spelled": "--file=" if cases[i][1] else "positional",
+    chk.count("spec", 3 * len(cases) + 2 * sum(1 for c in cases if "encrypt" in c[0]), nontriv, samples=[{"job": cases[i][0], "file_names_spelled": "--file=" if cases[i][1] else "positional",
                                                           "denotation": meta[i][1][:300]} for i in (0, len(cases) // 2, len(cases) - 1)])
     chk.cov["parts"]["spec"]["distribution"] = dist
     chk.cov["parts"]["spec"]["jobs"] = len(cases)
